@@ -294,7 +294,8 @@ Proof.
   destruct pe as [rewind_to payload_size| |].
   - apply Hcont.
     + eapply D0_trans; [exact Hd1|].
-      apply (D0_one (EvPopExpired (timer_expired (v_t_retransmit s1) (v_now s1))
+      apply (D0_one (EvPopExpired (timer_expired (v_t_retransmit s1) (v_now s1)
+                                   && negb (is_local_fin_or_later (v_state s1)))
                                   (o_mtu_probe_max_retx (v_opts s1)))); try reflexivity.
       * destruct (seq_gt _ _); unfold dview_of; vsimpl; cbn [dapply x_segs]; rewrite Epe; reflexivity.
       * destruct (seq_gt _ _); vsimpl; reflexivity.
